@@ -41,9 +41,9 @@ def drop(case, fi, i):
     for I in f["insns"]:
         if "l" in I: I["l"] = fix(I["l"])
         if "ls" in I: I["ls"] = [fix(x) for x in I["ls"]]
-        if "lr" in I: I["lr"] = {"l": fix(I["lr"]["l"]), "l2": fix(I["lr"]["l2"]) if I["lr"]["l2"] else 0}
+        if "lr" in I: I["lr"] = {"l": fix(I["lr"]["l"]), "l2": fix(I["lr"]["l2"]) if I["lr"]["l2"] else 0, "d": I["lr"].get("d", 0)}
     if f.get("lrefs"):
-        f["lrefs"] = [{"l": fix(x["l"]), "l2": fix(x["l2"]) if x["l2"] else 0} for x in f["lrefs"]]
+        f["lrefs"] = [{"l": fix(x["l"]), "l2": fix(x["l2"]) if x["l2"] else 0, "d": x.get("d", 0)} for x in f["lrefs"]]
     return c
 
 def main():
